@@ -418,6 +418,20 @@ Definition set_origin (st : bstate) (i : nat) (r : raw) : bstate * outcome :=
       end
   end.
 
+(* lf.file_header.header_id = s / lf.file_header.sequence_number = n: plain attributes, nothing is validated until a write *)
+Definition set_header (st : bstate) (l : nat) (is_id : bool) (r : raw) : bstate * outcome :=
+  match lf_at st l with
+  | None => (st, Rejected EOther)
+  | Some f =>
+      match is_id, r with
+      | true, RStr s _ => (set_lf st l {| l_hid := s; l_seq := l_seq f; l_ident := l_ident f; l_fh_origin := l_fh_origin f;
+                                          l_reg := l_reg f; l_nofmt := l_nofmt f; l_data := l_data f |}, Accepted None)
+      | false, RInt z => (set_lf st l {| l_hid := l_hid f; l_seq := z; l_ident := l_ident f; l_fh_origin := l_fh_origin f;
+                                         l_reg := l_reg f; l_nofmt := l_nofmt f; l_data := l_data f |}, Accepted None)
+      | _, _ => (st, Rejected EOther)          (* any other object is stored as it is: outside the model *)
+      end
+  end.
+
 Inductive op :=
 | OAddLF (hid seq : raw)
 | OAdd (l ty : nat) (name : raw) (sn : oname) (origin : raw) (kw : list (nat * praw))
@@ -429,7 +443,8 @@ Inductive op :=
 | ONoFmt (l : nat) (obj : raw) (p : payload_in)
 | OQuery (l : nat)                       (* lf.channels / frames / origins / defining_origin: read-only *)
 | OEnterHC | OExitHC
-| OSetOrigin (i : nat) (r : raw).
+| OSetOrigin (i : nat) (r : raw)
+| OSetHeader (l : nat) (is_id : bool) (r : raw).
 
 (* process-level flag with the save/restore stack of the context manager *)
 Record pstate := { p_hc : bool; p_stack : list bool }.
@@ -453,6 +468,7 @@ Definition step (ps : pstate) (st : bstate) (o : op) : pstate * bstate * outcome
                | [] => (ps, st, Rejected EOther)
                end
   | OSetOrigin i r => let '(st', out) := set_origin st i r in (ps, st', out)
+  | OSetHeader l b r => let '(st', out) := set_header st l b r in (ps, st', out)
   end.
 
 Fixpoint run_ops (ps : pstate) (st : bstate) (ops : list op) : pstate * bstate * list outcome :=
